@@ -26,7 +26,7 @@ GROUPS = ([('sym', n) for n in range(0, 7)] +
 
 
 def shards(tier, seed):
-    k = 1 if tier == 'quick' else 6
+    k = 1 if tier == 'quick' else 20
     return [{'name': f'g{i}-{g[0]}', 'group': list(g) if not isinstance(g, tuple) else [x if not isinstance(x, tuple) else list(x) for x in g], 'elems': 6 * k} for i, g in enumerate(GROUPS)]
 
 
